@@ -71,7 +71,9 @@ Derive(s) ==
       n2 |-> [x \in 1..Len(s.inter) |-> IF s.inter[x].kind = "nb" THEN Cardinality(TypeSet(top, s.inter[x].t[2])) ELSE 1],
       nn |-> [x \in 1..Len(s.inter) |-> IF s.inter[x].kind = "nb" /\ s.inter[x].t[1] = s.inter[x].t[2] THEN 2 ELSE 1],
       ok |-> \A f \in 1..Len(s.frames) : fd[f].ok,
-      tie |-> \E f \in 1..Len(s.frames) : fd[f].tie]
+      tie |-> \E f \in 1..Len(s.frames) : fd[f].tie,
+      win |-> \A f \in 1..Len(s.frames) : fd[f].win,
+      skew |-> \A f \in 1..Len(s.frames) : fd[f].skew]
 
 \* ---- exact values --------------------------------------------------------------------------------
 Term(n, d, p) == [n |-> n, d |-> d, p |-> p]
@@ -252,9 +254,13 @@ ScenarioOK ==
   /\ \A x \in 1..NI : sc.inter[x].n >= 2
   \* non-bonded interactions come first (csg_stat adds them first; fixes the order inside an IMC group)
   /\ \A x \in 1..(NI - 1) : sc.inter[x].kind \in {"bond", "angle"} => sc.inter[x + 1].kind \in {"bond", "angle"}
-  \* max <= half the smallest box edge of every frame (BeginEvaluate's test on whichever frame is first)
+  \* max <= half the smallest box height of every frame (BeginEvaluate's test on whichever frame is first)
   /\ \A x \in 1..NI : sc.inter[x].kind = "nb" =>
-        \A f \in 1..Len(sc.frames) : \A c \in 1..3 : CentreQ(sc.inter[x], sc.inter[x].n) <= 2 * sc.frames[f].box[c]
+        \A f \in 1..Len(sc.frames) : HalfBoxOK(sc.inter[x], sc.frames[f].box)
+  \* vacuity guards: every frame has distances just below a range with min > 0 (one that belongs to bin 0
+  \* and one that is discarded); every frame of the triclinic family defeats a length-sized search grid
+  /\ dv.win
+  /\ sc.kind = 6 => dv.skew
   /\ Len(dv.top) = Len(sc.frames[1].pos)
 
 \* running-mean identity: the incrementally updated means equal sum / count
